@@ -127,6 +127,10 @@ def main(tier, only=None):
     ck.set_deadline(300 if quick else 2700)
     root = os.path.join(scratch(), 'root7'); os.makedirs(root + '/d')
     open(root + '/f', 'wb').write(b'f' * 3000); open(root + '/d/g', 'wb').write(b'g'); os.symlink('f', root + '/l')
+    # a second source tree whose top directory outgrows its first block while sub-directories are being added (the "no space in directory, expand, retry" path of the populator)
+    root2 = os.path.join(scratch(), 'root7b'); os.makedirs(root2)
+    for i in range(60):
+        os.makedirs('%s/%s%03d/sub' % (root2, 'D' * 44, i)); open('%s/%s%03d/sub/f' % (root2, 'D' * 44, i), 'wb').write(b'x' * i)
     FS = [('ext2', ['-t', 'ext2']), ('ext3', ['-t', 'ext3', '-J', 'size=1']), ('ext4', ['-t', 'ext4', '-O', '^has_journal']), ('ext4j', ['-t', 'ext4', '-J', 'size=1']),
           ('ext4_64_csum', ['-t', 'ext4', '-O', '^has_journal,64bit,metadata_csum']), ('ext4_nocsum_uninit', ['-t', 'ext4', '-O', '^has_journal,^metadata_csum,uninit_bg']),
           ('metabg', ['-t', 'ext4', '-O', '^has_journal,meta_bg,^resize_inode']), ('bigalloc', ['-t', 'ext4', '-O', '^has_journal,bigalloc', '-C', '4096']),
@@ -161,7 +165,7 @@ def main(tier, only=None):
     devs = [['-I', '128'], ['-I', '256'], ['-I', '1024'], ['-i', '1024'], ['-i', '8192'], ['-i', '65536'], ['-N', '16'], ['-N', '5000'], ['-N', '20000'], ['-N', '70000'], ['-m', '0'], ['-m', '50'], ['-G', '1'], ['-G', '2'], ['-G', '16'], ['-G', '256'],
             ['-E', 'stride=4,stripe_width=8'], ['-E', 'stride=13'], ['-E', 'resize=20000'], ['-E', 'resize=200000'], ['-E', 'packed_meta_blocks=1'], ['-E', 'num_backup_sb=0'], ['-E', 'num_backup_sb=1'],
             ['-E', 'root_owner=1000:1000'], ['-E', 'lazy_itable_init=0'], ['-E', 'lazy_itable_init=1,lazy_journal_init=1'], ['-E', 'nodiscard'], ['-E', 'offset=4096'], ['-E', 'root_perms=0700'],
-            ['-d', root], ['-T', 'small'], ['-T', 'news'], ['-T', 'largefile'], ['-L', 'label16charslong'], ['-M', '/mnt/x'], ['-e', 'remount-ro'], ['-c' if False else '-v'], ['-S'] if False else ['-K'],
+            ['-d', root], ['-d', root2], ['-T', 'small'], ['-T', 'news'], ['-T', 'largefile'], ['-L', 'label16charslong'], ['-M', '/mnt/x'], ['-e', 'remount-ro'], ['-c' if False else '-v'], ['-S'] if False else ['-K'],
             ['-J', 'size=4'], ['-J', 'size=1,location=200'], ['-O', 'encrypt'], ['-O', 'casefold'], ['-O', 'stable_inodes'], ['-O', 'verity'], ['-O', 'fast_commit', '-J', 'size=4'], ['-O', 'mmp'], ['-E', 'quotatype=usrquota'],
             ['-g', '8192'], ['-g', '264'], ['-C', '16384', '-O', 'bigalloc'], ['-O', '^has_journal', '-J', 'size=4'], ['-E', 'assume_storage_prezeroed=1'], ['-E', 'mmp_update_interval=2', '-O', 'mmp']]
     for name, o in (FS if not quick else [f for f in FS if f[0] in ('ext2', 'ext4', 'ext4j', 'ext4_64_csum', 'bigalloc', 'quota')]):
